@@ -84,7 +84,7 @@ def check_construct(case, ctx):
 # ---- (ii) O(k) for streaming entries and pipelines -------------------------------------------------
 STREAM = [n for n, e in catalog.ENTRIES.items() if (e.has("stream") or e.has("hash")) and e.n >= 1 and not e.has("file")
           and n not in ("look", "see")]
-STREAMSRC = {"hashrightjoin": 1}
+STREAMSRC = {"hashrightjoin": 1, "hashrightjoin_kw": 1}  # the streamed (probe) input of the entry
 
 # pipeline stages: header-agnostic (fields by index 0/1), rows never shrink below 2 cells
 STAGES = {
